@@ -206,3 +206,24 @@ func verifHarness_C04_sendpath(param int) {
 	verifAssert(verifRopePrefix(ref, verifK04.got, flushed), "C04/kernel-stream-differs-from-flushed-stream")
 	verifReach("end")
 }
+
+// (a') the two ends of the stream inside the buffers: what the sender's vectors (GetBytes) and
+// the receiver's reads (Next, Slice, Read, ReadBinary) hand out over multi-node buffers is the
+// written stream, in order. These are the C01 model runs over the two- and three-node shapes,
+// reported under this property.
+//
+//verif:bounds shapes {two data nodes, three data nodes} x {Next, ReadBinary, Slice, Read, GetBytes(1..3 vectors)} + drain; sizes symbolic per size class
+//verif:relabel C01 C04
+//verif:replay interp
+//verif:param 0 9
+//verif:loop 10
+func verifHarness_C04_stream(param int) {
+	shapes := [2]int{5, 21}
+	ops := [5]int{verifOpNext, verifOpReadBinary, verifOpSlice, verifOpReadCopy, verifOpGetBytes}
+	v := verifShape(shapes[param/5])
+	verifReach("shape")
+	v.step(ops[param%5])
+	verifReach("op1")
+	v.drain()
+	verifReach("end")
+}
